@@ -43,8 +43,9 @@ class Keys:
         self.hex = {}
         self.keys = {}
         for fam in FAMS:
-            for i in range(2):
-                name = f"{fam}_{i}"
+            # key 2 has a dotted name whose part before the last dot names key 0 (file-name handling must open the file of the key that is NAMED)
+            for i in range(3):
+                name = f"{fam}_{i}" if i < 2 else f"{fam}_0.v2"
                 if material and name in material:
                     k = CO.key_from_hex(material[name])
                 else:
@@ -111,7 +112,7 @@ def table_case(case, acc, ctx, keys):
         else:
             with open(inp, "wb") as fh:
                 fh.write(data)
-        new_key = f"{keyfam}_0"
+        new_key = f"{keyfam}_0.v2" if case.get("dotted") else f"{keyfam}_0"
         matching = keyfam == fam_of(alg)
         raised = None
         try:
@@ -120,7 +121,7 @@ def table_case(case, acc, ctx, keys):
             raise
         except Exception as e:
             raised = e
-        acc.case(nt_key=("table", case["state"], action, alg, keyfam), classes=["table", f"state:{case['state']}", f"action:{action}", "key:match" if matching else "key:mismatch"],
+        acc.case(nt_key=("table", case["state"], action, alg, keyfam, bool(case.get("dotted"))), classes=["table", f"state:{case['state']}", f"action:{action}", "key:match" if matching else "key:mismatch"] + (["key-name:dotted"] if case.get("dotted") else []),
                  sample=case, sample_key=f"table/{state}/{action}/{'m' if matching else 'x'}")
         wrote = os.path.exists(out)
         outb = open(out, "rb").read() if wrote else None
@@ -172,6 +173,11 @@ def table_cases():
     for action in ("error", "skip", "remove-old"):
         for alg in CO.ALGS:
             yield {"state": "signed-same-key", "action": action, "alg": alg, "keyfam": fam_of(alg)}
+    # key named with a dot ("<name>.v2", beside a different key "<name>"): the key that is named signs, and its type is the one checked
+    for state, action in (("unsigned", "error"), ("signed", "remove-old")):
+        for alg in CO.ALGS:
+            for keyfam in FAMS:
+                yield {"state": state, "action": action, "alg": alg, "keyfam": keyfam, "dotted": True}
 
 
 # ------------------------------------------------------------------------------------------------
@@ -205,7 +211,7 @@ def cfg_s(tree, inherited_alg="eddsa", top=True):
                 alg = a
             else:
                 alg = "eddsa"
-        kn = f"{fam_of(alg)}_{draw(st.integers(0, 1))}"
+        kn = f"{fam_of(alg)}_{draw(st.sampled_from(['0', '1', '0.v2']))}"
         kid = draw(st.sampled_from([0, 23, 24, 0x40022100, 0x7FFFFFE0, 2**32 - 1]))
         if mode in ("sign", "omit"):
             c["key-name"] = kn
